@@ -8,10 +8,19 @@
      * onnxscript/_framework_apis/torch_2_5.py  get_torchlib_ops           -> flatten
      * onnxscript/ir/_schemas.py  op_signature_from_function               -> fn_sig (data; produced by
          the translator from the live functions' op_signature, never re-derived here)
-     * torch/onnx/_internal/exporter/_building.py _construct_named_inputs_and_attrs  (scripted
-         OnnxFunction: OnnxFunction.__call__ -> OpRecorder.eval_function)  -> bind with f_traced = false
-     * onnxscript/_internal/values.py TracedOnnxFunction.__call__ = self.func( *args, **kwargs )
-         (trace-only functions are called as plain Python functions)      -> bind with f_traced = true
+     * torch/onnx/_internal/exporter/_building.py _construct_named_inputs_and_attrs applied to the
+         function's op_signature                                          -> bind_signature = bind
+         This is the binder of the property ("positional schema arguments by position, keyword-only
+         ones by name") and it is used for EVERY entry, scripted or trace-only: what matches no
+         parameter of the signature is dropped.  It is what OnnxFunction.__call__ ->
+         OpRecorder.eval_function runs for scripted functions.
+     * Python's own call binding f( *args, **kwargs )                       -> bind_python
+         onnxscript/_internal/values.py TracedOnnxFunction.__call__ is `return self.func( *args, **kwargs )`,
+         so the installed exporter reaches a trace-only function this way (observed: exporting
+         rand_like(x, memory_format=...) ends in TypeError "unexpected keyword argument").  It is
+         modelled and compared with the real thing, and related to bind_signature by a theorem
+         (it succeeds exactly when bind_signature succeeds and drops nothing, with the same result),
+         but it is NOT what binds_ok judges: an unmatched droppable keyword counts as dropped.
 
    A call is described by its *shape* only: how many positional schema arguments it supplies and
    which keyword-only schema arguments it supplies; binding never looks at values.
@@ -44,7 +53,8 @@ Definition schema := list sarg.
 Inductive attr_ty := AInt | AFloat | AString | AInts | AFloats | AStrings | ATensor | ATensors | AGraph | AGraphs.
 Inductive pkind := PInput | PAttr (t : attr_ty).
 Record param := mkP { p_name : string; p_kind : pkind; p_required : bool }.
-Record fn_sig := mkF { f_params : list param; f_traced : bool }.
+Record fn_sig := mkF { f_params : list param;
+                       f_traced : bool (* trace_only=True; informational: binds_ok does not depend on it *) }.
 
 Record call := mkC {
   c_npos : nat;            (* the first c_npos positional schema arguments are supplied, in order *)
@@ -109,20 +119,31 @@ Fixpoint bind_params (ps : list param) (i npos : nat) (kws : list string) : resu
 Definition kw_bound (k : string) (bound : list (param * source)) : bool :=
   existsb (fun ps => match snd ps with SKw k' => String.eqb k k' | _ => false end) bound.
 
-(* scripted function: positional arguments left on the stack and keyword arguments that name no
-   (still unfilled) parameter are silently ignored; trace-only function: Python raises TypeError. *)
-Definition bind (f : fn_sig) (c : call) : result binding :=
-  let ps := f_params f in
-  if f_traced f && (length ps <? c_npos c) then Err TooManyPositional else
+(* _construct_named_inputs_and_attrs: positional arguments left on the stack and keyword arguments that
+   name no (still unfilled) parameter are silently ignored *)
+Definition bind_signature (ps : list param) (c : call) : result binding :=
   match bind_params ps 0 (c_npos c) (c_kws c) with
   | Err e => Err e
   | OK bound =>
-      let dk := filter (fun k => negb (kw_bound k bound)) (c_kws c) in
-      match f_traced f, dk with
-      | true, k :: _ => Err (UnexpectedKeyword k)
-      | _, _ => OK (mkB bound (seq (length ps) (c_npos c - length ps)) dk)
-      end
+      OK (mkB bound (seq (length ps) (c_npos c - length ps))
+              (filter (fun k => negb (kw_bound k bound)) (c_kws c)))
   end.
+
+(* the binder of the property, for every registered function *)
+Definition bind (f : fn_sig) (c : call) : result binding := bind_signature (f_params f) c.
+
+(* Python's call binding of a function whose parameters are all positional-or-keyword: the same
+   assignment, but whatever bind_signature would drop raises TypeError *)
+Definition bind_python (ps : list param) (c : call) : result binding :=
+  if length ps <? c_npos c then Err TooManyPositional else
+  match bind_signature ps c with
+  | Err e => Err e
+  | OK b => match b_dropped_kw b with k :: _ => Err (UnexpectedKeyword k) | [] => OK b end
+  end.
+
+(* correspondence helper only: which of the two binders a test case exercises *)
+Definition bind_mode (python : bool) (ps : list param) (c : call) : result binding :=
+  if python then bind_python ps c else bind_signature ps c.
 
 (* ------------------------------------------------------------------------------ what may go where *)
 
@@ -134,16 +155,18 @@ Definition is_tensor (a : sarg) : bool := match a_base a with BTensor => true | 
 
 (* which non-tensor schema arguments an attribute parameter of a given type takes, following what
    the exporter hands over (_convert_fx_arg_to_onnx_arg: dtype -> int, device/layout/memory_format
-   -> str; _construct_named_inputs_and_attrs: int given for a FLOAT attribute is converted) *)
+   -> str; _construct_named_inputs_and_attrs: int (hence bool, dtype) given for a FLOAT attribute is
+   converted; ir.convenience.convert_attributes must then produce an attribute of the declared type).
+   The harness recomputes this table from the real functions on representative values. *)
 Definition attr_accepts (a : sarg) (t : attr_ty) : bool :=
   match a_base a, a_list a, t with
   | BInt, false, AInt | BInt, false, AFloat => true
   | BSymInt, false, AInt | BSymInt, false, AFloat => true
-  | BBool, false, AInt => true
+  | BBool, false, AInt | BBool, false, AFloat => true
   | BFloat, false, AFloat => true
   | BScalar, false, AInt | BScalar, false, AFloat => true
   | BStr, false, AString => true
-  | BScalarType, false, AInt => true
+  | BScalarType, false, AInt | BScalarType, false, AFloat => true
   | BLayout, false, AString | BDevice, false, AString | BMemoryFormat, false, AString => true
   | BInt, true, AInts | BSymInt, true, AInts | BBool, true, AInts => true
   | BFloat, true, AFloats => true
@@ -189,18 +212,16 @@ Definition binds_ok (s : schema) (f : fn_sig) : bool :=
   let ps := f_params f in
   check_params pos kw ps 0 &&
   (* positional schema arguments beyond the last parameter *)
-  (if f_traced f then length pos <=? length ps
-   else forallb (fun a => droppable (a_name a)) (skipn (length ps) pos)) &&
+  forallb (fun a => droppable (a_name a)) (skipn (length ps) pos) &&
   (* keyword-only schema arguments: taken by a parameter of that name that no positional argument
      can fill, or dropped *)
   forallb (fun k => has_param_from (length pos) (a_name k) ps
-                    || (negb (f_traced f) && droppable (a_name k))) kw.
+                    || droppable (a_name k)) kw.
 
 (* ------------------------------------------------- diagnosis (used by the harness on a failing entry) *)
 
 Inductive why :=
-  WTensorToAttr | WNotAccepted | WRequiredUnbound | WDroppedPositional | WTooManyPositional
-| WDroppedKeyword | WUnexpectedKeyword.
+  WTensorToAttr | WNotAccepted | WRequiredUnbound | WDroppedPositional | WDroppedKeyword.
 
 (* (schema argument name or parameter name, reason, a conforming call shape on which it shows) *)
 Definition why_pair (a : sarg) (p : param) : why := if is_tensor a then WTensorToAttr else WNotAccepted.
@@ -218,7 +239,7 @@ Fixpoint diag_params (pos kw : list sarg) (ps : list param) (i : nat) : list (st
   | [] => []
   | p :: ps' =>
       (match nth_error pos i with
-       | Some a => if pair_ok a p then [] else [(a_name a, why_pair a p, mkC (length pos) (required_kws kw))]
+       | Some a => if pair_ok a p then [] else [(a_name a, why_pair a p, mkC (Nat.max (S i) (min_npos pos)) (required_kws kw))]
        | None => [] end) ++
       (if forallb a_default (skipn i pos) then
          match find_kw kw (p_name p) with
@@ -237,16 +258,10 @@ Definition diagnose (s : schema) (f : fn_sig) : list (string * why * call) :=
   let kw := kw_args s in
   let ps := f_params f in
   diag_params pos kw ps 0 ++
-  (if f_traced f then
-     (if length pos <=? length ps then []
-      else match nth_error pos (length ps) with
-           | Some a => [(a_name a, WTooManyPositional, mkC (length pos) (required_kws kw))]
-           | None => [] end)
-   else map (fun a => (a_name a, WDroppedPositional, mkC (length pos) (required_kws kw)))
-            (filter (fun a => negb (droppable (a_name a))) (skipn (length ps) pos))) ++
+  map (fun a => (a_name a, WDroppedPositional, mkC (length pos) (required_kws kw)))
+      (filter (fun a => negb (droppable (a_name a))) (skipn (length ps) pos)) ++
   flat_map (fun k =>
       if has_param_from (length pos) (a_name k) ps then []
-      else if f_traced f then [(a_name k, WUnexpectedKeyword, mkC (length pos) (a_name k :: required_kws kw))]
       else if droppable (a_name k) then []
       else [(a_name k, WDroppedKeyword, mkC (length pos) (a_name k :: required_kws kw))]) kw.
 
@@ -385,7 +400,8 @@ Fixpoint list_eqb {A} (eq : A -> A -> bool) (l1 l2 : list A) : bool :=
   | x :: r1, y :: r2 => eq x y && list_eqb eq r1 r2
   | _, _ => false end.
 Definition outcome_agrees (f : fn_sig) (c : call) (obs : option (list source * list string)) : bool :=
-  match bind f c, obs with
+  (* in a correspondence case the flag of the signature selects the binder under test *)
+  match bind_mode (f_traced f) (f_params f) c, obs with
   | Err _, None => true
   | OK b, Some (srcs, dk) =>
       list_eqb src_eqb (map snd (b_bound b)) srcs && list_eqb String.eqb (b_dropped_kw b) dk
